@@ -36,6 +36,11 @@ type userKey struct{ n int }
 
 func c14Snapshot(t tabular.Table, keys []interface{}) string {
 	var sb strings.Builder
+	// the library-interpreted column properties (alignment, skipable) are user-set state too
+	if v, err := json.Marshal(extractView(t)); err == nil {
+		sb.Write(v)
+		sb.WriteString("\n")
+	}
 	fmt.Fprintf(&sb, "rows=%d cols=%d\n", t.NRows(), t.NColumns())
 	props := func(po tabular.PropertyOwner) string {
 		var ps []string
@@ -204,12 +209,43 @@ func init() {
 				}
 			}
 			var renders []string
+			// the reference for each slot: "the first time" = the same spec built
+			// afresh and rendered once through a fresh wrapper
+			seenSlot := map[int]bool{}
+			first := map[int]Outcome{}
+			for _, rd := range sp.Renders {
+				if seenSlot[rd.Slot] {
+					continue
+				}
+				seenSlot[rd.Slot] = true
+				slot := c14Slots[rd.Slot]
+				ref := capture(func() (string, error) {
+					ft := tabular.New()
+					sp.Table.Build(ft)
+					switch {
+					case slot == "csv":
+						return csv.Wrap(ft).Render()
+					case strings.HasPrefix(slot, "html:"):
+						h := html.Wrap(ft)
+						htmlCfg(h, slot[5:])
+						return h.Render()
+					case slot == "json":
+						return tjson.Wrap(ft).Render()
+					case slot == "markdown":
+						return markdown.Wrap(ft).Render()
+					}
+					tt := texttable.Wrap(ft)
+					tt.SetDecorationNamed(slot[5:])
+					return tt.Render()
+				})
+				first[rd.Slot] = ref
+				renders = append(renders, cqPair(cqNat(rd.Slot), ref.Coq()))
+			}
 			type shown struct {
 				Slot string
 				Out  Outcome
 			}
 			var outs []shown
-			first := map[int]Outcome{}
 			sig := ""
 			count := map[int]int{}
 			for _, rd := range sp.Renders {
